@@ -505,6 +505,11 @@ func (d *Data) storeBlocks(ctx *datastore.VersionedCtx, r io.ReadCloser, scale u
 			break
 		}
 		bcoord := dvid.ChunkPoint3d{bx, by, bz}.ToIZYXString()
+		// The readers address stored blocks by the instance's block size: a block of another size is refused.
+		if want, ok := d.BlockSize().(dvid.Point3d); !ok || !block.Size.Equals(want) {
+			streamErr = fmt.Errorf("block %s has size %s, but the instance stores blocks of size %s", bcoord, block.Size, d.BlockSize())
+			break
+		}
 		tk := NewBlockTKeyByCoord(scale, bcoord)
 		if scale == 0 {
 			if mod := d.blockChangesExtents(&extents, bx, by, bz); mod {
@@ -583,7 +588,7 @@ func (d *Data) ingestBlocks(ctx *datastore.VersionedCtx, r io.ReadCloser, scale 
 
 	var numBlocks int
 	for {
-		_, compressed, bx, by, bz, err := readStreamedBlock(r, scale)
+		block, compressed, bx, by, bz, err := readStreamedBlock(r, scale)
 		if err == io.EOF {
 			break
 		}
@@ -591,6 +596,9 @@ func (d *Data) ingestBlocks(ctx *datastore.VersionedCtx, r io.ReadCloser, scale 
 			return err
 		}
 		bcoord := dvid.ChunkPoint3d{bx, by, bz}.ToIZYXString()
+		if want, ok := d.BlockSize().(dvid.Point3d); !ok || !block.Size.Equals(want) {
+			return fmt.Errorf("block %s has size %s, but the instance stores blocks of size %s", bcoord, block.Size, d.BlockSize())
+		}
 		tk := NewBlockTKeyByCoord(scale, bcoord)
 		serialization, err := dvid.SerializePrecompressedData(compressed, d.Compression(), d.Checksum())
 		if err != nil {
